@@ -383,6 +383,8 @@ def workload(tier, rng, shard, nshards, work):
                 data = {"min": min(lo, start) if pos == "first" else 0.0, "max": end if pos == "last" else end + (0.0 if nb[1] else 0.0), "tiers": [
                     {"t": "I", "name": "t", "min": min(lo, start) if pos == "first" else 0.0, "max": end, "entries": ents},
                     {"t": "P", "name": "p", "min": min(lo, start) if pos == "first" else 0.0, "max": end, "entries": [(ents[0][0], "x"), (end, "")]}]}
+                if si % 2:
+                    data["tiers"].reverse()  # the point tier first
                 try:
                     tg = TC.build_tg(data)
                 except Exception:
@@ -413,7 +415,8 @@ def workload(tier, rng, shard, nshards, work):
             if rng.random() < 0.2:
                 data["tiers"].append({"t": "I", "name": "unlabelled", "min": tmin, "max": tmax, "entries": []})  # filled with one blank in the FILE
             if rng.random() < 0.3:
-                data["tiers"].append({"t": "P", "name": "pp", "min": tmin, "max": tmax, "entries": [(start, "p"), (start + 3e-9, "q")] if start + 3e-9 <= tmax else [(start, "p")]})
+                # (a point tier stands anywhere among the interval tiers, also first)
+                data["tiers"].insert(rng.randrange(len(data["tiers"]) + 1), {"t": "P", "name": "pp", "min": tmin, "max": tmax, "entries": [(start, "p"), (start + 3e-9, "q")] if start + 3e-9 <= tmax else [(start, "p")]})
             try:
                 tg = TC.build_tg(data)
             except Exception:
